@@ -3,6 +3,6 @@ CONSTANTS
   Names = {"n1", "n2"}
   WriterIds = {1, 2, 3}
   Pays = {"P1", "P2"}
-INVARIANTS ScanExact NeverExposes NoOrphans
+INVARIANTS ScanExact NeverExposes NoOrphans AbortLeavesNothing
 PROPERTIES NoClobber
 CHECK_DEADLOCK FALSE
